@@ -21,63 +21,74 @@ open Gimli Gimli.Ints Gimli.Lists Gimli.WLists Gimli.Spec.Lists Gimli.Spec.WList
 /-! ## "serialised in the encoding required by the unit's version and read back, through the
 unit's base address, as the same ranges and (range, expression) pairs" -/
 
-/-- **Round trip, DWARF 5.** If writing the unit succeeds, then for every `add`ed range list and
-every `add`ed location list: the offset handed to its `RangeListRef` / `LocationListRef`
-attribute exists, and the reader (`Dwarf::ranges` / `Dwarf::locations` at that offset of
-`.debug_rnglists` / `.debug_loclists`, C08's Model), started with the unit's base address, yields
-exactly the ranges — for location lists the (range, expression bytes) pairs — the list as built
-means (`Spec.WLists.meaning`), in order, with no error. Nothing else is assumed about the lists. -/
-theorem list_roundtrip (m : Mode) (u : UnitIn) (out : UnitOut)
+/-- **Round trip, DWARF 5.** A unit written at any position (`p`: its offset in `.debug_info`, the
+current lengths of `.debug_rnglists` / `.debug_loclists`, whose contents `priorR` / `priorL` — the
+tables of earlier units — are arbitrary). If writing the unit succeeds, then for every `add`ed
+range list and every `add`ed location list: the offset handed to its `RangeListRef` /
+`LocationListRef` attribute exists, and the reader (`Dwarf::ranges` / `Dwarf::locations` at that
+offset of the section, C08's Model), started with the unit's base address, yields exactly the
+ranges — for location lists the (range, expression bytes) pairs — the list as built means
+(`Spec.WLists.meaning`), in order, with no error. Nothing else is assumed about the lists. -/
+theorem list_roundtrip (m : Mode) (u : UnitIn) (p : Pos) (priorR priorL : Bytes) (out : UnitOut)
     (hv : u.cfg.version = 5) (hs : ValidSize u.cfg.addrSize) (he : ∀ o ∈ u.eoff, o < 2 ^ 64)
-    (hmr : ∀ l ∈ u.rng, ∀ x ∈ l, Machine .rng u.cfg (unitEOff u) 0 x)
-    (hml : ∀ l ∈ u.loc, ∀ x ∈ l, Machine .loc u.cfg (unitEOff u) 0 x)
-    (hw : writeUnit m u = .ok out) :
+    (hmr : ∀ l ∈ u.rng, ∀ x ∈ l, Machine .rng u.cfg (unitEOff u) p.uoff x)
+    (hml : ∀ l ∈ u.loc, ∀ x ∈ l, Machine .loc u.cfg (unitEOff u) p.uoff x)
+    (hpr : p.rngStart = priorR.length) (hpl : p.locStart = priorL.length)
+    (hw : writeUnitAt m u p = .ok out) :
     (∀ (j : Nat) (hj : j < u.rng.length), ∃ off evs, out.rngOffs[j]? = some off ∧
-      cookedAt .rng u.cfg false out.debugRanges out.debugRnglists off (unitBase u.lowPc) [] 0 = .ok evs ∧
-      evs.map denot = meaning u.cfg.addrSize (dataBytes .rng u.cfg (unitEOff u) 0) (unitBase u.lowPc) u.rng[j]) ∧
+      cookedAt .rng u.cfg false out.debugRanges (priorR ++ out.debugRnglists) off (unitBase u.lowPc) [] 0 = .ok evs ∧
+      evs.map denot = meaning u.cfg.addrSize (dataBytes .rng u.cfg (unitEOff u) p.uoff) (unitBase u.lowPc) u.rng[j]) ∧
     (∀ (j : Nat) (hj : j < u.loc.length), ∃ off evs, out.locOffs[j]? = some off ∧
-      cookedAt .loc u.cfg false out.debugLoc out.debugLoclists off (unitBase u.lowPc) [] 0 = .ok evs ∧
-      evs.map denot = meaning u.cfg.addrSize (dataBytes .loc u.cfg (unitEOff u) 0) (unitBase u.lowPc) u.loc[j]) := by
-  obtain ⟨_, r, l, h1, h2, _, rfl⟩ := writeUnit_ok hw
+      cookedAt .loc u.cfg false out.debugLoc (priorL ++ out.debugLoclists) off (unitBase u.lowPc) [] 0 = .ok evs ∧
+      evs.map denot = meaning u.cfg.addrSize (dataBytes .loc u.cfg (unitEOff u) p.uoff) (unitBase u.lowPc) u.loc[j]) := by
+  obtain ⟨_, r, l, h1, h2, _, rfl⟩ := writeUnitAt_ok hw
   have heo := unitEOff_u64 u he
   have hleg : ¬ u.cfg.version ≤ 4 := by omega
+  rw [hpr] at h1
+  rw [hpl] at h2
   constructor
   · intro j hj
-    have := lists_roundtrip_v5 m .rng u.cfg (unitEOff u) _ [] u.rng r hv hs heo hmr h1 (unitBase u.lowPc) j hj
+    have := lists_roundtrip_v5 m .rng u.cfg (unitEOff u) p.uoff _ priorR [] u.rng r hv hs heo hmr h1
+      (unitBase u.lowPc) j hj
     simpa [mkOut, hleg] using this
   · intro j hj
-    have := lists_roundtrip_v5 m .loc u.cfg (unitEOff u) _ [] u.loc l hv hs heo hml h2 (unitBase u.lowPc) j hj
+    have := lists_roundtrip_v5 m .loc u.cfg (unitEOff u) p.uoff _ priorL [] u.loc l hv hs heo hml h2
+      (unitBase u.lowPc) j hj
     simpa [mkOut, hleg] using this
 
 /-- **Round trip, DWARF 2–4** (`.debug_ranges` / `.debug_loc`), PARTIAL: the same statement under
 the additional hypothesis `hno` that no entry's first word is the all-ones base-address marker
 (`OnesBegin`). Without `hno` the statement is FALSE — the writer accepts such entries and they read
-back as base-address selections: recorded finding C16-1, theorems `prev5_ones_begin_misread` and
-`prev5_ones_begin_witness` below. Full statement (not provable): as `list_roundtrip` with
-`2 ≤ version ≤ 4` and without `hno`. -/
-theorem list_roundtrip_prev5_partial (m : Mode) (u : UnitIn) (out : UnitOut)
+back as base-address selections: recorded finding C16-1, theorems `prev5_ones_begin_misread`,
+`prev5_ones_begin_witness` and `prev5_ones_begin_witness_loc` below. Full statement (not provable):
+as `list_roundtrip` with `2 ≤ version ≤ 4` and without `hno`. -/
+theorem list_roundtrip_prev5_partial (m : Mode) (u : UnitIn) (p : Pos) (priorR priorL : Bytes)
+    (out : UnitOut)
     (hv : 2 ≤ u.cfg.version ∧ u.cfg.version ≤ 4) (he : ∀ o ∈ u.eoff, o < 2 ^ 64)
-    (hmr : ∀ l ∈ u.rng, ∀ x ∈ l, Machine .rng u.cfg (unitEOff u) 0 x)
-    (hml : ∀ l ∈ u.loc, ∀ x ∈ l, Machine .loc u.cfg (unitEOff u) 0 x)
+    (hmr : ∀ l ∈ u.rng, ∀ x ∈ l, Machine .rng u.cfg (unitEOff u) p.uoff x)
+    (hml : ∀ l ∈ u.loc, ∀ x ∈ l, Machine .loc u.cfg (unitEOff u) p.uoff x)
     (hnor : ∀ l ∈ u.rng, ∀ x ∈ l, ¬ OnesBegin u.cfg x)
     (hnol : ∀ l ∈ u.loc, ∀ x ∈ l, ¬ OnesBegin u.cfg x)
-    (hw : writeUnit m u = .ok out) :
+    (hpr : p.rngStart = priorR.length) (hpl : p.locStart = priorL.length)
+    (hw : writeUnitAt m u p = .ok out) :
     (∀ (j : Nat) (hj : j < u.rng.length), ∃ off evs, out.rngOffs[j]? = some off ∧
-      cookedAt .rng u.cfg false out.debugRanges out.debugRnglists off (unitBase u.lowPc) [] 0 = .ok evs ∧
-      evs.map denot = meaning u.cfg.addrSize (dataBytes .rng u.cfg (unitEOff u) 0) (unitBase u.lowPc) u.rng[j]) ∧
+      cookedAt .rng u.cfg false (priorR ++ out.debugRanges) out.debugRnglists off (unitBase u.lowPc) [] 0 = .ok evs ∧
+      evs.map denot = meaning u.cfg.addrSize (dataBytes .rng u.cfg (unitEOff u) p.uoff) (unitBase u.lowPc) u.rng[j]) ∧
     (∀ (j : Nat) (hj : j < u.loc.length), ∃ off evs, out.locOffs[j]? = some off ∧
-      cookedAt .loc u.cfg false out.debugLoc out.debugLoclists off (unitBase u.lowPc) [] 0 = .ok evs ∧
-      evs.map denot = meaning u.cfg.addrSize (dataBytes .loc u.cfg (unitEOff u) 0) (unitBase u.lowPc) u.loc[j]) := by
-  obtain ⟨_, r, l, h1, h2, _, rfl⟩ := writeUnit_ok hw
+      cookedAt .loc u.cfg false (priorL ++ out.debugLoc) out.debugLoclists off (unitBase u.lowPc) [] 0 = .ok evs ∧
+      evs.map denot = meaning u.cfg.addrSize (dataBytes .loc u.cfg (unitEOff u) p.uoff) (unitBase u.lowPc) u.loc[j]) := by
+  obtain ⟨_, r, l, h1, h2, _, rfl⟩ := writeUnitAt_ok hw
   have heo := unitEOff_u64 u he
   have hbase := haveBase_false_base u.lowPc
+  rw [hpr] at h1
+  rw [hpl] at h2
   constructor
   · intro j hj
-    have := lists_roundtrip_prev5 m .rng u.cfg (unitEOff u) _ [] u.rng r hv heo hmr hnor h1
+    have := lists_roundtrip_prev5 m .rng u.cfg (unitEOff u) p.uoff _ priorR [] u.rng r hv heo hmr hnor h1
       (unitBase u.lowPc) hbase j hj
     simpa [mkOut, hv.2] using this
   · intro j hj
-    have := lists_roundtrip_prev5 m .loc u.cfg (unitEOff u) _ [] u.loc l hv heo hml hnol h2
+    have := lists_roundtrip_prev5 m .loc u.cfg (unitEOff u) p.uoff _ priorL [] u.loc l hv heo hml hnol h2
       (unitBase u.lowPc) hbase j hj
     simpa [mkOut, hv.2] using this
 
@@ -450,6 +461,40 @@ theorem dedup_one_copy (m : Mode) (k : Kind) (c : Cfg) (eo : EOff) (uoff : Nat) 
     have := ((dedup lists).2.2.2.2 i j hi hj).mpr heq
     simp only [handOver, List.getElem?_map, this]
 
+/-- **Different lists, different offsets**: the lists of a table start at strictly increasing
+offsets, so two `add`s are handed the same offset exactly when their lists are equal. -/
+theorem dedup_distinct_offsets (m : Mode) (k : Kind) (c : Cfg) (eo : EOff) (uoff : Nat) (ub : Bool)
+    (start : Nat) (lists : List WList) (bytes : Bytes) (offs : List Nat)
+    (hw : writeTable m k c eo uoff ub start (addAll [] lists).1 = .ok (bytes, offs))
+    (hlen : offs.length = (addAll [] lists).1.length)
+    (i j : Nat) (hi : i < lists.length) (hj : j < lists.length) :
+    (handOver offs (addAll [] lists).2)[i]? = (handOver offs (addAll [] lists).2)[j]? ↔ lists[i] = lists[j] := by
+  obtain ⟨_, _, _, hid, _⟩ := addAll_spec lists [] List.nodup_nil
+  obtain ⟨a, ha1, ha2⟩ := hid i hi
+  obtain ⟨b, hb1, hb2⟩ := hid j hj
+  have hpw := writeTable_increasing hw
+  have hal : a < offs.length := by
+    rw [hlen]
+    rcases Nat.lt_or_ge a (addAll [] lists).1.length with h | h
+    · exact h
+    · rw [List.getElem?_eq_none h] at ha2; simp at ha2
+  have hbl : b < offs.length := by
+    rw [hlen]
+    rcases Nat.lt_or_ge b (addAll [] lists).1.length with h | h
+    · exact h
+    · rw [List.getElem?_eq_none h] at hb2; simp at hb2
+  have hoa := handOver_at ha1 (List.getElem?_eq_getElem hal)
+  have hob := handOver_at hb1 (List.getElem?_eq_getElem hbl)
+  rw [hoa, hob, ← (dedup lists).2.2.2.2 i j hi hj, ha1, hb1]
+  simp only [Option.some.injEq]
+  constructor
+  · intro h
+    rcases Nat.lt_trichotomy a b with hlt | heq | hgt
+    · have := List.pairwise_iff_getElem.mp hpw a b hal hbl hlt; omega
+    · exact heq
+    · have := List.pairwise_iff_getElem.mp hpw b a hbl hal hgt; omega
+  · intro h; subst h; rfl
+
 /-! ## "the pre-v5 format is ambiguous around (0,0) terminators and the all-ones base marker" -/
 
 /-- **No accepted entry is the terminator** (DWARF 2–4). Whatever entry `write_ranges` /
@@ -532,9 +577,10 @@ theorem start_length_no_overflow (m : Mode) (k : Kind) (c : Cfg) (eo : EOff) (uo
 size without overflow checks, writing a unit's lists yields a value or an error — the only panic in
 the modelled code is the all-ones marker computation `!0 >> (64 - address_size * 8)` of a
 `BaseAddress` entry for an address size outside 1..8 with overflow checks on. -/
-theorem writer_total (m : Mode) (u : UnitIn) (h : (1 ≤ u.cfg.addrSize ∧ u.cfg.addrSize ≤ 8) ∨ m = .release) :
-    (writeUnit m u).Normal :=
-  writeUnit_normal m u (marker_normal m _ h)
+theorem writer_total (m : Mode) (u : UnitIn) (p : Pos)
+    (h : (1 ≤ u.cfg.addrSize ∧ u.cfg.addrSize ≤ 8) ∨ m = .release) :
+    (writeUnitAt m u p).Normal :=
+  writeUnitAt_normal m u p (marker_normal m _ h)
 
 /-! ## the recorded finding's witness, and non-vacuity of the hypotheses -/
 
@@ -564,6 +610,25 @@ theorem prev5_ones_begin_witness :
   ⟨uBad, ⟨[0], [], [0], [],
       [0xff, 0xff, 0xff, 0xff, 5, 0, 0, 0, 0x10, 0, 0, 0, 0x20, 0, 0, 0, 0, 0, 0, 0, 0, 0, 0, 0], [], [], []⟩,
     [.item ⟨0x15, 0x25, []⟩], by decide, by decide, by decide, by decide, by decide, by decide, by decide⟩
+
+private def uBadLoc : UnitIn :=
+  { cfg := cfg4, lowPc := some (.const 0x1000), eoff := [], rng := [],
+    loc := [[.offsetPair 0xffffffff 1 [.raw [0xf4, 0xb5, 0x65, 0x5e]]]] }
+
+/-- **Finding C16-1 in a location list**: `[OffsetPair(0xffff_ffff, 1, expr)]` in a DWARF 4 unit with
+base address 0x1000 (address size 4) means the location `[0xfff, 0x1001)` (offset -1). It is
+accepted; read back, the entry is taken for a base-address selection and its 2-byte length and
+expression bytes for the next entry: the reader yields no location and ends with an error. -/
+theorem prev5_ones_begin_witness_loc :
+    ∃ (out : UnitOut) (e : Err),
+      writeUnit .debug uBadLoc = .ok out ∧ out.locOffs = [0] ∧
+      cookedAt .loc uBadLoc.cfg false out.debugLoc out.debugLoclists 0 (unitBase uBadLoc.lowPc) [] 0 =
+        .ok [.error e] ∧
+      meaning 4 (dataBytes .loc uBadLoc.cfg (unitEOff uBadLoc) 0) (unitBase uBadLoc.lowPc) uBadLoc.loc[0]! =
+        [.range 0xfff 0x1001 [0xf4, 0xb5, 0x65, 0x5e]] :=
+  ⟨⟨[], [0], [], [0], [], [],
+      [0xff, 0xff, 0xff, 0xff, 1, 0, 0, 0, 4, 0, 0xf4, 0xb5, 0x65, 0x5e, 0, 0, 0, 0, 0, 0, 0, 0], []⟩,
+    .rUnexpectedEof, by decide, by decide, by decide, by decide⟩
 
 /-- a DWARF 5 unit with base address 0x1000, two range lists (one added twice) and a location list
 with a `DW_OP_call4` / `DW_OP_convert` / `DW_OP_call_ref` expression, an empty range, a default
